@@ -140,6 +140,7 @@ def build_host(resources, mwset, mount, meta=None):
     from clastic import Application, MetaApplication, Middleware, StaticApplication, StaticFileRoute, render_basic
     from clastic.middleware.cookie import SignedCookieMiddleware
     from clastic.decorators import clastic_decorator
+    from werkzeug.wrappers import Response
 
     @clastic_decorator
     def deco(f):
@@ -160,7 +161,12 @@ def build_host(resources, mwset, mount, meta=None):
         return 'defaults'
     e = Endpoints()
     here = os.path.dirname(os.path.abspath(__file__))
-    inner = Application([('/inner', func, render_basic)])
+    class Tmpl(object):
+        # a render argument for the application's render factory that is neither text nor callable
+        def __repr__(self):
+            return '<Tmpl object>'
+    inner = Application([('/inner', func, render_basic), ('/innert', func, Tmpl()), ('/innertt', func, ('tmpl.html', Tmpl()))],
+                        render_factory=lambda arg: (lambda context: Response('rendered by factory')))
     routes = [('/func', func, render_basic), ('/lambda', lambda: 'l', render_basic), ('/method', e.method, render_basic),
               ('/callable', e, render_basic), ('/static', Endpoints.static, render_basic), ('/cls', Endpoints.cls, render_basic),
               ('/deco', decorated, render_basic), ('/defaults', with_defaults, render_basic), StaticFileRoute('/file', os.path.abspath(__file__)),
